@@ -38,7 +38,7 @@ var addrs = []string{"aa", "ab01", "c0ffee", "00"}
 func (prop) Gen(r *core.Rand, tier string) []core.Case {
 	n := 500
 	if tier == "thorough" {
-		n = 30000
+		n = 20000
 	}
 	h := strconv.FormatInt(resolution, 10)
 	h1 := strconv.FormatInt(resolution+1, 10)
